@@ -716,12 +716,16 @@ impl Check for C09 {
                 if ctx.violations.iter().any(|v| v.sig == sig) {
                     continue;
                 }
-                ctx.pre_violation(&sig, &what, &json!({"case": cv, "schedule": s.to_json(), "budget_fault": bf}));
-                ctx.progress("minimise");
-                let cm = shrink_case(&case, s, *bf, &sig);
-                ctx.violation(sig, what, json!({"case": cm, "schedule": s.to_json(), "budget_fault": bf, "module": module_json(&build(&cm))}));
+                ctx.violation(sig, what, json!({"case": cv, "schedule": s.to_json(), "budget_fault": bf, "module": module_json(&build(&case))}));
             }
         }
+    }
+    fn minimise(&self, replay: &Json, sig: &Json) -> Json {
+        let Some(case) = replay.get("case").and_then(|c| serde_json::from_value::<Case>(c.clone()).ok()) else { return replay.clone() };
+        let Some(s) = replay.get("schedule").and_then(Schedule::from_json) else { return replay.clone() };
+        let bf = replay.get("budget_fault").and_then(|b| b.as_bool()).unwrap_or(false);
+        let cm = shrink_case(&case, &s, bf, sig);
+        json!({"case": cm, "schedule": s.to_json(), "budget_fault": bf, "module": module_json(&build(&cm))})
     }
     fn replay(&self, replay: &Json, ctx: &mut CaseCtx) {
         let Some(case) = replay.get("case").and_then(|c| serde_json::from_value::<Case>(c.clone()).ok()) else { return };
